@@ -136,6 +136,9 @@ func renderNodeWithContext(ctx VueContext, w io.Writer, node *html.Node, indent 
 			_, _ = w.Write([]byte(spaces + node.Data))
 		}
 
+	case html.DoctypeNode:
+		_, _ = w.Write([]byte("<!DOCTYPE " + node.Data + ">\n"))
+
 	case html.ElementNode:
 		// Count children without allocating slice
 		childCount := 0
